@@ -62,8 +62,15 @@ class C16Bounded(Bounded):
         masks = [0, 1, 2, 4, 8, 6, 14, 31] if tier == "quick" else list(range(32))
         ev = nontriv = 0
         fails, samples = [], []
+        envs = [None, "0", "false", "no", "off", ""]
+        saved_env = {k: os.environ.get(k) for k in ("PYSIGMA_ALLOW_EXTERNAL_SOURCES", "PYSIGMA_ALLOW_VARS_EXECUTION")}
         for di, d in enumerate(docs):
-            for mask in masks:
+            for mask, envv in [(m, None) for m in masks] + [(m, e) for m in (0, 31) for e in envs[1:]]:
+                for k in saved_env:         # a switched-off spelling of the documented variables grants nothing either
+                    if envv is None:
+                        os.environ.pop(k, None)
+                    else:
+                        os.environ[k] = envv
                 for how in ("dict", "yaml"):
                     ev += 1
                     del events[:]
@@ -90,9 +97,14 @@ class C16Bounded(Bounded):
                     if "TOPSECRET" in outcome:
                         bad.append("secret file content in query")
                     if bad:
-                        fails.append({"text": f"document {di} ({how}, opt-in keys injected at depth mask {mask}) loaded with default arguments caused {bad}; outcome {outcome}", "input": [di, mask, how]})
+                        fails.append({"text": f"document {di} ({how}, opt-in keys injected at depth mask {mask}, environment variables {'unset' if envv is None else '= ' + repr(envv)}) loaded with default arguments caused {bad}; outcome {outcome}", "input": [di, mask, how, envv]})
                     if len(samples) < 4 and mask == 6 and how == "dict":
                         samples.append({"document": json.dumps(dd)[:300], "outcome": outcome})
+        for k, v in saved_env.items():
+            if v is None:
+                os.environ.pop(k, None)
+            else:
+                os.environ[k] = v
         # allowed base directories: a sibling directory sharing the name prefix is rejected even with execution allowed
         for vf, inside in ((varsfile, True), (sibling, False)):
             ev += 1
@@ -106,5 +118,5 @@ class C16Bounded(Bounded):
             if ran != inside:
                 fails.append({"text": f"vars file {vf} with allowed base {os.path.dirname(varsfile)}: executed={ran}, expected {inside}", "input": [vf]})
         shutil.rmtree(root, ignore_errors=True)
-        return {"evaluations": ev, "distinct_nontrivial": nontriv, "failures": fails[:20], "bound": f"{len(docs)} item shapes x {len(masks)} injection-depth masks x (from_dict, from_yaml), default arguments",
+        return {"evaluations": ev, "distinct_nontrivial": nontriv, "failures": fails[:20], "bound": f"{len(docs)} item shapes x {len(masks)} injection-depth masks x (from_dict, from_yaml), default arguments, environment variables unset; masks 0 and 31 also with the variables set to '0', 'false', 'no', 'off', ''",
                 "rule": "distinct (document, mask, loader) triples; non-trivial = at least one injected key", "samples": samples, "exhaustive": tier != "quick"}
